@@ -56,6 +56,19 @@ claim("C11",
       "Lean 4 proof (frame lemma + induction over the sentence fold) + model/implementation correspondence",
       "DESIGN.md §7 C11")
 
+claim("C06",
+      "Lean models of the whole Markdown wrapping pipeline — scanners for the 12 atomic patterns, the word splitter, "
+      "adjacent-tag (de)normalisation, hard-break and tag-newline layers, preprocess_tag_block_spacing, and both "
+      "complete wrappers — with theorems SPAN_INTACT (a run without unmasked whitespace is never split, for every "
+      "scanner), SPLIT_NONEMPTY, ALONE / ALONE_last (a tag-only line is its own segment), BLOCKGAP / NOGAP (exactly one "
+      "blank line between tag and list/table segments, none elsewhere), PRE_GAP, PRE_CODE_UNTOUCHED, and the "
+      "kernel-evaluated witness SEP_false. Ties: scanners vs ATOMIC_CONSTRUCT_PATTERN on all strings ≤4 over an 18-symbol "
+      "alphabet + 40k fragment strings; splitter; layers with a symbolic base wrapper; both full wrappers on 12k rich "
+      "paragraphs. Oracle: constructs intact within one line at widths 1..20/88 in both modes, spacing, tag-delimited blocks.",
+      COMMON_NOTE + "Which strings are constructs is whatever the regex recognises (scanner models tied by enumeration, not "
+      "proof); the NUL-placeholder encoding of the real splitter is covered by the mdsplit tie only (P-nul: inputs without U+0000).",
+      "Lean 4 proof (splitter/segmentation lemmas over executable models of the full wrapper pipeline) + correspondence",
+      "DESIGN.md §7 C06")
 claim("C07",
       "Lean theorems about an exact model of split_frontmatter and the frontmatter shell of fill_markdown (body "
       "formatter as a parameter): FM_NONE, FM_PARTITION (the document's lines are blank ++ frontmatter ++ body, "
